@@ -33,6 +33,7 @@ func C09(r *core.Run) {
 	undischarged := rule091bounds(r, ctx, reach)
 	rule091nil(r, ctx, reach)
 	rule091assert(r, ctx, reach)
+	rule091local(r, reach)
 	rule091panic(r, ctx, reach)
 	rule091alloc(r, ctx, reach)
 	rule092(r)
@@ -41,6 +42,7 @@ func C09(r *core.Run) {
 	lsa := newLockset(r)
 	ruleL1(r, lsa)
 	ruleL3(r, lsa)
+	rule0212(r)
 	rule096(r)
 	rule097(r, reach)
 	rule098(r)
@@ -1583,4 +1585,76 @@ func altValues(v ssa.Value, d int) []ssa.Value {
 		return out
 	}
 	return []ssa.Value{v}
+}
+
+// rule091local — a local pointer that may still be nil is not dereferenced.
+func rule091local(r *core.Run, reach map[*ssa.Function]bool) {
+	r.Rule("R09.1l", "a pointer-typed local that is nil on some feasible incoming edge of a merge (`var last *T` assigned only inside a loop or a branch) is dereferenced — field access, method call through it — only where a dominating guard established it non-nil: the first use after a loop that may not have run is a nil dereference")
+	n := 0
+	for _, fn := range r.P.RepoFuncs() {
+		if !reach[fn] {
+			continue
+		}
+		f := fn
+		core.Instrs(f, func(in ssa.Instruction) {
+			var base ssa.Value
+			switch x := in.(type) {
+			case *ssa.FieldAddr:
+				base = x.X
+			case *ssa.Field:
+				return
+			case *ssa.UnOp:
+				if x.Op != token.MUL {
+					return
+				}
+				base = x.X
+			default:
+				return
+			}
+			ph, ok := base.(*ssa.Phi)
+			if !ok {
+				return
+			}
+			if _, isPtr := ph.Type().Underlying().(*types.Pointer); !isPtr {
+				return
+			}
+			// some live edge (followed through nested phis) carries nil
+			mayNil := false
+			seen := map[*ssa.Phi]bool{}
+			var walk func(p *ssa.Phi)
+			walk = func(p *ssa.Phi) {
+				if seen[p] {
+					return
+				}
+				seen[p] = true
+				for i, e := range p.Edges {
+					if i < len(p.Block().Preds) && !core.LiveEdge(p.Block().Preds[i], p.Block()) {
+						continue
+					}
+					if core.IsNilConst(e) {
+						mayNil = true
+					}
+					if q, ok := e.(*ssa.Phi); ok {
+						walk(q)
+					}
+				}
+			}
+			walk(ph)
+			if !mayNil {
+				return
+			}
+			n++
+			ok2 := core.NilnessAt(ph, in.Block()) == core.NonNil
+			if !ok2 {
+				// a guard on the phi itself dominating this instruction
+				for _, g := range core.GuardsOf(in) {
+					if isNil, ok := core.ErrNilFact(g, ph); ok && !isNil {
+						ok2 = true
+					}
+				}
+			}
+			r.Check(ok2, "R09.1l", key(fname(r, f), "possibly-nil local dereferenced", sprintf("#%d", n)), pos(r, in), "guarded non-nil", "a local pointer that is nil on some path reaching here is dereferenced without a dominating non-nil test: the request panics")
+		})
+	}
+	r.Held("R09.1l", key("repo", "possibly-nil locals enumerated"), "", sprintf("%d dereferences of merged pointers with a nil edge", n))
 }
